@@ -31,7 +31,18 @@ Pass == [ok |-> TRUE, clause |-> "", at |-> 0]
 DTOK(r) == \A k \in 1..Len(r.ev) : (r.ev[k].f % 256 >= 224 /\ BitOfInt(r.ev[k].f, 8) = 1 /\ GearOf7(r.ev[k].f \div 512) # None)
                                      => r.ev[k].dt = 8
 
-Verdict(r) ==
+\* the library's enumerations against the tables (names and codes)
+EnumVerdict(r) ==
+    LET q == {<<r.query[k][1], r.query[k][2]>> : k \in 1..Len(r.query)}
+        l == {<<r.limit[k][1], r.limit[k][2]>> : k \in 1..Len(r.limit)}
+    IN IF q # QuerySelectorNames THEN
+           Fail("query-selector-names-differ-from-209-table-11",
+                LET d == (q \ QuerySelectorNames) \cup (QuerySelectorNames \ q) IN (CHOOSE x \in d : TRUE)[2])
+       ELSE IF l # LimitSelectorNames THEN Fail("limit-selector-names-differ-from-209", 0)
+       ELSE IF {x[2] : x \in q} # QuerySelectors THEN Fail("selector-codes-differ-from-209-table-11", 0)
+       ELSE Pass
+
+Verdict(r) == IF r.seq = "enums" THEN EnumVerdict(r) ELSE
     LET fr == Fold(r)
         u0 == InitUnit(r.unit)
         n == Len(r.ev)
